@@ -173,6 +173,25 @@ func indexGuards(b *ssa.BasicBlock, p *ssa.Parameter, base ssa.Value) (lower, up
 				upper = true
 				facts = append(facts, fmt.Sprintf("%s(…): %s below len", callee.Name(), p.Name()))
 			}
+			// the bound is itself a parameter of the helper: valid(i, n) called with n = len(base)
+			if rp, isParam := R.(*ssa.Parameter); isParam {
+				for i, cp := range callee.Params {
+					if cp != rp {
+						continue
+					}
+					arg := call.Call.Args[i]
+					if (op == token.LSS && lenOfSame(arg, base, 0)) || (op == token.LEQ && lenOfSame(arg, base, -1)) {
+						upper = true
+						facts = append(facts, fmt.Sprintf("%s(…, len): %s below len", callee.Name(), p.Name()))
+					}
+					if k, ok := guards.ConstInt(arg); ok {
+						if n, okc := constLen(base); okc && ((op == token.LSS && k <= n) || (op == token.LEQ && k <= n-1)) {
+							upper = true
+							facts = append(facts, fmt.Sprintf("%s(…, %d): %s below len %d", callee.Name(), k, p.Name(), n))
+						}
+					}
+				}
+			}
 		}
 	}
 	for _, f := range guards.Facts(b) {
